@@ -325,6 +325,31 @@ func init() {
 			}
 			c.runBFS("bfs-hfp-"+pc.name, sys, depth, nil)
 		}
+		// the cache under test is the second of two: its period is its own (unset -> 300 s), not its neighbour's
+		for _, nb := range []struct {
+			name, first, second string
+			P                   int64
+		}{{"1s-then-unset", "1s", "x", 0}, {"unset-then-2s", "x", "2s", 2}, {"2s-then-0s", "2s", "0s", 0}} {
+			cfg := env.BasicConfig(config.CacheConfig{HitForPass: nb.second})
+			cfg.Caches = append([]config.CacheConfig{{Name: "c0", Size: 100, HitForPass: nb.first}}, cfg.Caches...)
+			for i := range cfg.Caches {
+				if cfg.Caches[i].HitForPass == "x" {
+					cfg.Caches[i].HitForPass = "" // really unset
+				}
+			}
+			eff := nb.P
+			if eff <= 0 {
+				eff = 300
+			}
+			sys := &keySys{cfg: cfg, cfgKey: "hfp-two-" + nb.name, P: nb.P, events: []keyEvent{
+				{Name: "GET(origin:uncacheable)", Kind: "get", Ans: "uncacheable"},
+				{Name: "GET(origin:max-age=2)", Kind: "get", Ans: "cacheable", T: 2},
+				{Name: "tick+1", Kind: "tick", D: 1},
+				{Name: "tick+2", Kind: "tick", D: 2},
+				{Name: fmt.Sprintf("tick+%d", eff), Kind: "tick", D: eff},
+			}}
+			c.runBFS("bfs-hfp-second-cache-"+nb.name, sys, depth-2, nil)
+		}
 		c.RunSched(c07Burst(c, "period-burst3", 3, false, vsched.Bounds{Preempt: pre, Tick: 0, Data: -1, Total: -1}, false))
 		c.RunSched(c07Burst(c, "period-burst3-witness", 3, false, vsched.Bounds{Preempt: 0, Tick: 0, Data: 0, Total: 0}, true))
 		c.RunSched(c10Waiters(c, "cold-burst-uncacheable-store-faults", true, vsched.Bounds{Preempt: pre, Tick: 0, Data: 2, Total: pre + 1}))
